@@ -163,6 +163,7 @@ type WBiscuit struct {
 	NextSecret     []byte // proof oneof: exactly one of these non-nil when well-formed
 	FinalSignature []byte
 	Unknown        [][]byte // raw extra fields appended on encode
+	ProofRaw       []byte   // when non-nil: the body of the proof message, written as it is
 }
 
 func decodeSignedBlock(b []byte) (*WSignedBlock, error) {
@@ -289,7 +290,9 @@ func (t *WBiscuit) Encode() []byte {
 	if t.FinalSignature != nil {
 		p.FBytes(2, t.FinalSignature)
 	}
-	if t.HasProof {
+	if t.ProofRaw != nil {
+		w.FBytes(4, t.ProofRaw)
+	} else if t.HasProof {
 		w.FBytes(4, p.B)
 	}
 	for _, u := range t.Unknown {
